@@ -71,6 +71,23 @@ Lemma C01_pow_is_iterated : forall (X : M33 R) (Y : M44 R),
    tr_SE3_pow3 Rops Y = pow_Z (I44 Rops) (tr_SE3_mul Rops) (tr_SE3_inv Rops) Y 3).
 Proof. intros. unfold pow_Z. simpl. repeat split; same_tr. Qed.
 
+(* the augmented assignments X *= Y, X /= Y (executed through the classes) compute the binary operators, so they inherit closure *)
+Lemma C01_inplace_are_binary : forall (X Y : M33 R) (A B : M44 R) (P Q : M22 R) (E F : M33 R),
+  tr_SO3_imul Rops X Y = tr_SO3_mul Rops X Y /\ tr_SO3_idiv Rops X Y = tr_SO3_div Rops X Y /\
+  tr_SE3_imul Rops A B = tr_SE3_mul Rops A B /\ tr_SE3_idiv Rops A B = tr_SE3_div Rops A B /\
+  tr_SO2_imul Rops P Q = tr_SO2_mul Rops P Q /\
+  tr_SE2_imul Rops E F = tr_SE2_mul Rops E F /\ tr_SE2_idiv Rops E F = tr_SE2_div Rops E F.
+Proof. intros. repeat split; same_tr. Qed.
+Lemma C01_inplace_closed : forall (X Y : M33 R) (A B : M44 R) (P Q : M22 R) (E F : M33 R),
+  (SO3 X -> SO3 Y -> SO3 (tr_SO3_imul Rops X Y) /\ SO3 (tr_SO3_idiv Rops X Y)) /\
+  (SE3 A -> SE3 B -> SE3 (tr_SE3_imul Rops A B) /\ SE3 (tr_SE3_idiv Rops A B)) /\
+  (SO2 P -> SO2 Q -> SO2 (tr_SO2_imul Rops P Q)) /\
+  (SE2 E -> SE2 F -> SE2 (tr_SE2_imul Rops E F) /\ SE2 (tr_SE2_idiv Rops E F)).
+Proof.
+  intros. destruct (C01_inplace_are_binary X Y A B P Q E F) as (-> & -> & -> & -> & -> & -> & ->).
+  pose proof (C01_SO3_closed X Y). pose proof (C01_SE3_closed A B). pose proof (C01_SO2_closed P Q). pose proof (C01_SE2_closed E F). tauto.
+Qed.
+
 Theorem C01_operators_closed : forall (X Y : M33 R) (A B : M44 R) (P Q : M22 R) (E F : M33 R),
   (SO3 X -> SO3 Y -> SO3 (tr_SO3_mul Rops X Y) /\ SO3 (tr_SO3_div Rops X Y) /\ SO3 (tr_SO3_inv Rops X)) /\
   (SE3 A -> SE3 B -> SE3 (tr_SE3_mul Rops A B) /\ SE3 (tr_SE3_div Rops A B) /\ SE3 (tr_SE3_inv Rops A) /\ SE3 (tr_trinv Rops A)) /\
